@@ -169,7 +169,7 @@ def shrink_new(ctx):
 
 
 def run(ctx):
-    ctx.known = list(ctx.known) + LOCAL_KNOWN
+    # the findings of this check are registered in /verif/known_findings.json (property C11)
     core.prove(ctx)
     drv = core.build_driver(ctx)
     ok, err = core.build_harness(ctx)
@@ -192,14 +192,8 @@ def run(ctx):
         shrink_new(ctx)
         replay_known(ctx, "cross-client-routing", CEX_ROUTING, 10, "response delivered to a request of another client",
                      "reqres.replay:oracle:response-delivered-to-a-request-of-another-client", LOCAL_KNOWN[0]["what"])
-        ctx.known.append(dict(property="C11", status="open", key="reqres.replay:panic:leaked-borrow-expired-buffer",
-                              what="Server::receive without fire-and-forget forgets the request of a client whose response connection is gone "
-                                   "(server.rs receive: no `else` for get_connection_id_of == None): the chunk is never released, the borrow counter of "
-                                   "the expired request connection stays at 1, the connection can never leave the expired-connection buffer; holding ONE "
-                                   "active request of another dead client (expired buffer 1) then ends in fatal_panic 'Expired connection buffer exceeded' "
-                                   "in update_connections. History: " + "; ".join(CEX_LEAK)))
         replay_known(ctx, "non-fire-and-forget-borrow-leak", CEX_LEAK, 13, "PANIC", "reqres.replay:panic:leaked-borrow-expired-buffer",
-                     ctx.known[-1]["what"])
+                     "Server::receive without fire-and-forget forgets the request of a client whose response connection is gone (see known_findings.json)")
         ctx.extra["leftover_files_removed"] = cleanup_leftovers()
     return core.finish(ctx, level="proof", rule=RULE, extra_assumptions=ASSUME)
 
